@@ -13,6 +13,7 @@ package pathsim
 import (
 	"fmt"
 	"go/ast"
+	"go/constant"
 	"go/token"
 	"go/types"
 
@@ -137,6 +138,8 @@ type Ctx struct {
 	Fn   ast.Node // *ast.FuncDecl or *ast.FuncLit
 	spec *Spec
 
+	nilIdent   *ast.Ident // a type-checked `nil` of the file (someNilIdent)
+	flagOK     map[types.Object]bool
 	cur        cst
 	Violations []Violation
 	vseen      map[string]bool
@@ -796,15 +799,113 @@ func (c *Ctx) atom(e ast.Expr, in []cst) (t, f []cst) {
 	}
 	// 4. `v != nil` / `v == nil` on an error local the rule does not track itself
 	if x, notNil, ok := IsNilCompare(c.Info, e); ok {
-		if id, isID := ast.Unparen(x).(*ast.Ident); isID {
-			if obj, isVar := c.Info.Uses[id].(*types.Var); isVar && !obj.IsField() && isErrorT(obj.Type()) {
-				if idx, ok := c.atomOf(obj, true); ok {
-					return split(idx, !notNil)
-				}
+		if obj := errCell(c.Info, x); obj != nil {
+			if idx, ok := c.atomOf(obj, true); ok {
+				return split(idx, !notNil)
 			}
 		}
 	}
 	return in, in
+}
+
+// flagLocal reports whether obj is a boolean local that only the statements of its own function
+// write: not a field, not a package variable, never assigned inside a nested literal and never
+// addressed (those writes would not be seen in path order).
+func (c *Ctx) flagLocal(obj types.Object) bool {
+	v, ok := obj.(*types.Var)
+	if !ok || v.IsField() || v.Pkg() == nil || v.Parent() == v.Pkg().Scope() {
+		return false
+	}
+	if b, isB := v.Type().Underlying().(*types.Basic); !isB || b.Kind() != types.Bool {
+		return false
+	}
+	if r, seen := c.flagOK[obj]; seen {
+		return r
+	}
+	if c.flagOK == nil {
+		c.flagOK = map[types.Object]bool{}
+	}
+	res := false
+	if file := c.P.FileAt(obj.Pos()); file != nil {
+		info := c.P.InfoAt(obj.Pos())
+		// the innermost function that declares obj
+		var home ast.Node
+		ast.Inspect(file, func(n ast.Node) bool {
+			if n == nil || obj.Pos() < n.Pos() || obj.Pos() >= n.End() {
+				return n != nil && false
+			}
+			switch n.(type) {
+			case *ast.FuncDecl, *ast.FuncLit:
+				home = n
+			}
+			return true
+		})
+		if home != nil {
+			res = true
+			var walk func(n ast.Node, nested bool)
+			walk = func(n ast.Node, nested bool) {
+				ast.Inspect(n, func(m ast.Node) bool {
+					if !res || m == nil {
+						return false
+					}
+					names := func(e ast.Expr) bool {
+						id, ok := ast.Unparen(e).(*ast.Ident)
+						return ok && (info.Uses[id] == obj || info.Defs[id] == obj)
+					}
+					switch x := m.(type) {
+					case *ast.FuncLit:
+						if m != n {
+							walk(x, true)
+							return false
+						}
+					case *ast.AssignStmt:
+						if nested {
+							for _, l := range x.Lhs {
+								if names(l) {
+									res = false
+								}
+							}
+						}
+					case *ast.IncDecStmt:
+					case *ast.UnaryExpr:
+						if x.Op == token.AND && names(x.X) {
+							res = false
+						}
+					case *ast.RangeStmt:
+						if names(x.Key) || names(x.Value) {
+							res = false
+						}
+					}
+					return true
+				})
+			}
+			walk(home, false)
+		}
+	}
+	c.flagOK[obj] = res
+	return res
+}
+
+// errCell names the storage an error-valued expression reads: a local error variable `err`, or
+// the cell behind a local pointer `*p` (p *error). The object of the variable is returned.
+func errCell(info *types.Info, x ast.Expr) types.Object {
+	x = ast.Unparen(x)
+	if st, ok := x.(*ast.StarExpr); ok {
+		if id, isID := ast.Unparen(st.X).(*ast.Ident); isID {
+			if obj, isVar := info.Uses[id].(*types.Var); isVar && !obj.IsField() {
+				if p, isPtr := obj.Type().Underlying().(*types.Pointer); isPtr && isErrorT(p.Elem()) {
+					return obj
+				}
+			}
+		}
+		return nil
+	}
+	if id, isID := x.(*ast.Ident); isID {
+		if obj, isVar := info.Uses[id].(*types.Var); isVar && !obj.IsField() && isErrorT(obj.Type()) {
+			return obj
+		}
+	}
+	return nil
 }
 
 // ---------------------------------------------------------------- statements
@@ -826,6 +927,28 @@ func (c *Ctx) stmts(list []ast.Stmt, in []cst) flow {
 
 func (c *Ctx) assignEvent(node ast.Node, lhs, rhs []ast.Expr, tok token.Token, in []cst) []cst {
 	out := c.emit(&Event{Kind: EvAssign, Node: node, Pos: node.Pos(), Lhs: lhs, Rhs: rhs, Tok: tok}, in)
+	// a boolean flag of the function (`done := false ... done = true ... if done {break}`): from
+	// its first constant assignment on it is followed like the booleans set by simulated returns
+	if len(rhs) == len(lhs) && (tok == token.DEFINE || tok == token.ASSIGN) {
+		for i, l := range lhs {
+			id, ok := ast.Unparen(l).(*ast.Ident)
+			if !ok {
+				continue
+			}
+			tv, isConst := c.Info.Types[rhs[i]]
+			if !isConst || tv.Value == nil || tv.Value.Kind() != constant.Bool {
+				continue
+			}
+			obj := c.Info.Defs[id]
+			if obj == nil {
+				obj = c.Info.Uses[id]
+			}
+			if _, has := c.autoAtom[obj]; has || !c.flagLocal(obj) {
+				continue
+			}
+			c.atomOf(obj, true)
+		}
+	}
 	if len(c.autoAtom) > 0 {
 		for i, l := range lhs {
 			id, ok := ast.Unparen(l).(*ast.Ident)
@@ -1028,10 +1151,35 @@ func (c *Ctx) stmt(s ast.Stmt, in []cst, label string) flow {
 						}
 					}
 				}
+				if _, isStar := res.(*ast.StarExpr); isStar && v == Unknown && isErr {
+					if robj := errCell(c.Info, res); robj != nil {
+						if j, ok := c.atomOf(robj, false); ok {
+							src = j
+						}
+					}
+				}
+				// an error expression the rule itself tests for nil (`*scanErr`, `s.err`): what the path
+				// knows about `<expr> != nil` is what the receiving variable is
+				ruleAtom, ruleNeg := -1, false
+				if v == Unknown && src < 0 && isErr && c.spec.Atom != nil {
+					if nilID := c.someNilIdent(x); nilID != nil {
+						cmp := &ast.BinaryExpr{X: res, OpPos: res.Pos(), Op: token.NEQ, Y: nilID}
+						if ai, neg, ok := c.spec.Atom(c, cmp); ok && ai >= 0 && ai < MaxAtoms {
+							ruleAtom, ruleNeg = ai, neg
+						}
+					}
+				}
 				for k := range out {
-					if src >= 0 {
+					switch {
+					case src >= 0:
 						out[k].s.V[idx] = out[k].s.V[src]
-					} else {
+					case ruleAtom >= 0:
+						val := out[k].s.V[ruleAtom]
+						if ruleNeg {
+							val = -val
+						}
+						out[k].s.V[idx] = val
+					default:
 						out[k].s.V[idx] = v
 					}
 				}
@@ -1313,4 +1461,25 @@ func IsNilCompare(info *types.Info, e ast.Expr) (x ast.Expr, notNil bool, ok boo
 		return b.Y, b.Op == token.NEQ, true
 	}
 	return nil, false, false
+}
+
+// someNilIdent returns a `nil` identifier of the enclosing file that the type checker recorded
+// (used to build `<expr> != nil` for a question to the rule's Atom function).
+func (c *Ctx) someNilIdent(at ast.Node) *ast.Ident {
+	if c.nilIdent != nil {
+		return c.nilIdent
+	}
+	f := c.P.FileAt(at.Pos())
+	if f == nil {
+		return nil
+	}
+	ast.Inspect(f, func(n ast.Node) bool {
+		if id, ok := n.(*ast.Ident); ok && id.Name == "nil" && c.nilIdent == nil {
+			if tv, ok := c.Info.Types[id]; ok && tv.IsNil() {
+				c.nilIdent = id
+			}
+		}
+		return c.nilIdent == nil
+	})
+	return c.nilIdent
 }
